@@ -7,5 +7,5 @@ mkdir -p .cache evidence replays
 ( cd coq && coq_makefile -f _CoqProject -o Makefile $(find theories -name '*.v' | sort) > /dev/null \
   && find theories -name '*.v' | sort | sed 's#^\./##' | tr '\n' '\n' > /dev/null \
   && timeout 3000 make -j16 > ../.cache/coq_setup.log 2>&1 ) || { tail -30 .cache/coq_setup.log; exit 1; }
-( cd harness && RUSTFLAGS="--cfg dust_dds_verif" cargo build --offline --quiet ) 
+( cd harness && RUSTFLAGS="--cfg dust_dds_verif" cargo build --offline --quiet --bins )
 echo setup ok
